@@ -29,6 +29,11 @@ CHECKS = {
   text="Model checking of an exact word machine over O(n,1)(Q) with TLC (every reachable word up to length 3 preserves the form, causal types and products of test points), bound to the code by building every emitted word with the library's own constructors, `@` and `inv()` and requiring form preservation, equality with the exact matrix as a projective map (exact states), the specified image of the origin (origin_to cosets), unchanged distances and interior/ideal/exterior types of the spec's test points.",
   note="Atoms at exact parameter values only (Pythagorean angles, rational translation parameters, integer normals, perfect-square targets); SL^+-(2,Z) images and Coxeter hyperbolic generators bound by form preservation only; words <= 3 (4 thorough for n=2); dimensions 2..4; model invariants evaluated where 32-bit products do not overflow.",
   design="4/C02"),
+ "C03": dict(
+  technique="TLA+ specs HypAction.tla (eleven hyperbolic object classes with exact integer data, action defined from the geometry, over the exact isometries of HypIso.tla) and ProjAction.tla (general integer 3x3 matrices with adjugate inverse on the projective classes; Gaussian-integer 2x2 on CP^1): TLC checks ActionLaw / IdentityLaw / InverseActs / derived-data compatibility on every (object, A, B) and emits each case; the library's (A@B)@X, A@(B@X), I@X, A.inv()@(A@X) replayed and compared with the exact images",
+  text="Model checking of the exact action semantics with TLC (one state per (object, A, B); group-action laws and derived-data compatibility as invariants), bound to the code by replaying every case through the library's `@`, `inv()` and constructors on unit objects and composite stacks and comparing type, composite shape, primary and derived data (polygon edges, segment ideal endpoints, tangent directions) projectively with the spec's exact image; representation words act as the exact product matrix.",
+  note="Universe: ~40 hyperbolic objects x 9 isometries squared in dimension 2 (3 in thorough), 14 projective objects x 6 matrices squared, 5 CP^1 points x 4 Gaussian matrices squared; hyperplane ideal bases compared through normal/nullity/orthogonality/rank (frame dependent); arbitrary real matrices only at these exact values.",
+  design="4/C03"),
 }
 
 NOT_YET = {
